@@ -201,21 +201,6 @@ Qed.
 Lemma Rel_rec q0 s0 g0 s g g' s' : Relq q0 s0 g0 s g -> Rel s g s' g' -> Rel s0 g0 s' g'.
 Proof. intros (K & M & G & Hc). apply Rel_trans; auto. Qed.
 
-Section Rec.
-Variable rec : kont -> M unit.
-Hypothesis HrecW : forall k d w g s, PreD k d w g s -> ww (rec k) (PostD k d w s) g s.
-Hypothesis HrecE : forall k g s, PreE k g s -> wf (rec k) (PostE k g s) g s.
-
-(* a nested continuation other than KFetchResp / KProcLoop, from a point of the current method *)
-Lemma E_rec k s0 g0 s g (Q : res unit -> list Z -> state -> Prop) :
-  match k with KProcLoop _ | KFetchResp _ _ => False | _ => True end ->
-  Rel s0 g0 s g -> (forall r g' s', Rel s0 g0 s' g' -> Q r g' s') -> wf (rec k) Q g s.
-Proof.
-  intros Hk R HQ. eapply wp_conseq; [ apply HrecE |].
-  - destruct R as (K & _ & _ & Hc). split; [exact K|]. destruct k; try contradiction; first [ exact Hc | exact I ].
-  - intros r g' s' [H _]. apply HQ. eapply Rel_rec; eauto.
-Qed.
-
 (* [Rel] across an explicit update of fields the coupling does not read *)
 Ltac relupd :=
   match goal with
@@ -258,6 +243,24 @@ Ltac r_leaf_int :=
                         intros r ? ? H; apply (Rel_leaf _ _ _ _ _ _ _ _ R) in H; clear R; destruct r; cbn beta iota ]
     end
   end.
+
+Ltac r_walk call := repeat (first [ f_stif | f_emit | wp_step call ]).
+Ltac r_done := try solve [ unfold PostE; split; [ relupd | intro; discriminate ] | relupd ].
+Section Rec.
+Variable rec : kont -> M unit.
+Hypothesis HrecW : forall k d w g s, PreD k d w g s -> ww (rec k) (PostD k d w s) g s.
+Hypothesis HrecE : forall k g s, PreE k g s -> wf (rec k) (PostE k g s) g s.
+
+(* a nested continuation other than KFetchResp / KProcLoop, from a point of the current method *)
+Lemma E_rec k s0 g0 s g (Q : res unit -> list Z -> state -> Prop) :
+  match k with KProcLoop _ | KFetchResp _ _ => False | _ => True end ->
+  Rel s0 g0 s g -> (forall r g' s', Rel s0 g0 s' g' -> Q r g' s') -> wf (rec k) Q g s.
+Proof.
+  intros Hk R HQ. eapply wp_conseq; [ apply HrecE |].
+  - destruct R as (K & _ & _ & Hc). split; [exact K|]. destruct k; try contradiction; first [ exact Hc | exact I ].
+  - intros r g' s' [H _]. apply HQ. eapply Rel_rec; eauto.
+Qed.
+
 Ltac r_rec :=
   lazymatch goal with
   | |- wp _ (rec ?k) _ ?g ?st =>
@@ -285,8 +288,6 @@ Ltac r_calls := idtac; lazymatch goal with
   | |- wp _ (rec (KFetchResp _ _)) _ _ _ => fail
   | |- wp _ (rec _) _ _ _ => r_rec
   end.
-Ltac r_walk call := repeat (first [ f_stif | f_emit | wp_step call ]).
-Ltac r_done := try solve [ unfold PostE; split; [ relupd | intro; discriminate ] | relupd ].
 
 Lemma f_handle_commit_error fk i a s0 g0 s g : Rel s0 g0 s g ->
   wf (handle_commit_error rec fk i a) (fun _ g' s' => Rel s0 g0 s' g') g s.
@@ -540,4 +541,317 @@ Proof.
     destruct msgs as [|m0 ml].
     + apply wp_bind, wp_ret. cbn beta iota. apply TAIL. exact R2.
     + apply wp_bind. apply (LOOP m0 ml s2 _ R2 MB2 N2). intros g3 s3 R3. cbn beta iota. apply TAIL. exact R3.
+Qed.
+
+Lemma is_prefix_take n (l p : list Z) : is_prefix (take n l) (l ++ p) = true.
+Proof.
+  revert l. induction n as [|n IH]; intro l; [reflexivity|]. destruct l as [|x l]; [reflexivity|].
+  cbn. rewrite Z.eqb_refl. apply IH.
+Qed.
+Lemma drop_take_app n (l p : list Z) : drop (length (take n l)) (l ++ p) = drop n l ++ p.
+Proof.
+  revert l. induction n as [|n IH]; intro l; [reflexivity|]. destruct l as [|x l]; [destruct p; reflexivity|].
+  cbn. apply IH.
+Qed.
+Lemma dead_of_branch s : s_stopping s || negb (is_some (s_startd s)) = true -> dead s = true.
+Proof.
+  intro ST. unfold dead, startd_unfired. apply orb_true_iff in ST. destruct ST as [-> | H]; [reflexivity|].
+  destruct (s_startd s); [discriminate H|]. apply orb_true_r.
+Qed.
+
+(* after the processor call returned (result code r): record the pending Deferred or run its callbacks, go on *)
+Lemma f_tail last rest r g1 s1 :
+  JJ s1 -> dead s1 || is_some (s_mblock s1) = true -> dead s1 || negb (is_some (s_proc s1)) = true -> C rest g1 s1 ->
+  wf (tail_of rec last rest r) (fun _ g' s' => Rel s1 g1 s' g') g1 s1.
+Proof.
+  intros K MB PN Hc. unfold tail_of. destruct (r =? 2) eqn:R2.
+  - apply wp_bind, wp_upd. cbn beta iota. apply wp_bind, wp_get. cbn beta iota. psimpl.
+    set (s2 := set_proc (Some (last, rest, false)) s1).
+    assert (DD : dead s2 = dead s1) by reflexivity.
+    assert (DD2 : dead2 s2 = dead2 s1) by reflexivity.
+    destruct (s_stopping s1 || negb (is_some (s_startd s1))) eqn:ST.
+    + pose proof (dead_of_branch _ ST) as D1.
+      apply wp_bind, wp_emit. eexists. split; [reflexivity|]. cbn beta iota.
+      assert (KF : PInvF (dead s2, false) s2) by (subst s2; clear - K; psolve).
+      apply wp_bind. eapply wp_call; [ apply (e_proc_chain last (Some FK_CANCELLED) g1 s2 KF) |].
+      intros r3 g3 s3 (-> & F3 & K3 & N3 & MB3 & M3 & MD3 & _). 
+      assert (D3 : dead2 s3 = true) by (apply dead2_of, MD3; rewrite DD; exact D1).
+      assert (R3 : Rel s1 g1 s3 g1).
+      { split; [exact K3 | split; [| split]]; [ intros _; exact D3 | auto | apply C_dead; exact D3 ]. }
+      destruct r3; cbn beta iota; [| exact R3].
+      eapply wp_conseq; [ apply (f_finish_block s1 g1 s3 g1 R3) |].
+      * rewrite N3. apply orb_true_r.
+      * intros ? ? ? H; exact H.
+    + apply wp_ret. apply orb_false_elim in ST. destruct ST as [ST1 ST2]. apply negb_false_iff in ST2.
+      split; [| split; [| split]].
+      * subst s2. clear - K MB ST1 ST2. psolve.
+      * intro D. exact D.
+      * auto.
+      * intro D. rewrite DD2 in D. rewrite (Hc D). subst s2. unfold queued, pext. psimpl.
+        rewrite (alive_of _ D) in PN. cbn in PN. destruct (s_proc s1); [discriminate PN | reflexivity].
+  - assert (KF : PInvF (dead s1, false) s1) by (apply JJ_PInvF; exact K).
+    apply wp_bind. eapply wp_call; [ apply (e_proc_chain last _ g1 s1 KF) |].
+    intros r3 g3 s3 (-> & F3 & K3 & N3 & MB3 & M3 & MD3 & DX & [a ->]). cbn beta iota.
+    apply wp_bind, wp_get. cbn beta iota.
+    assert (C3 : C rest g1 s3).
+    { intro D. pose proof (alive_back _ _ M3 D) as D1. rewrite (Hc D1). unfold queued, pext. rewrite N3, MB3, F3.
+      rewrite (alive_of _ D1) in PN. cbn in PN. destruct (s_proc s1); [discriminate PN | reflexivity]. }
+    destruct (s_stopping s3 || negb (is_some (s_startd s3))) eqn:ST.
+    + pose proof (dead_of_branch _ ST) as D3.
+      eapply wp_conseq; [ apply (f_finish_block s1 g1 s3 g1) |].
+      * split; [exact K3 | split; [| split]]; auto. apply C_dead, dead2_of. exact D3.
+      * rewrite N3. apply orb_true_r.
+      * intros ? ? ? H; exact H.
+    + destruct a as [k|].
+      * apply wp_raise. split; [exact K3 | split; [| split]]; auto. apply C_dead, dead2_of. apply (DX k eq_refl).
+      * eapply wp_conseq; [ apply (HrecE (KProcLoop rest)) |].
+        -- split; [exact K3|]. split; [| exact C3].
+           unfold loop_ok. destruct (dead s3) eqn:D3; [reflexivity|]. rewrite N3, MB3. cbn.
+           destruct (dead s1) eqn:D1; [pose proof (MD3 eq_refl) as D9; discriminate D9 | exact MB].
+        -- intros r4 g4 s4 [H4 _]. eapply Rel_trans; [exact M3 | auto | exact H4].
+Qed.
+
+Lemma f_body_KProcLoop msgs g s : PreE (KProcLoop msgs) g s ->
+  wf (body rec (KProcLoop msgs)) (PostE (KProcLoop msgs) g s) g s.
+Proof.
+  intros (K & L & Hc). cbn [body]. unfold PostE.
+  pose proof (loop_ok_fin _ L) as LF.
+  assert (POST : forall (r : res unit) g' s', Rel s g s' g' ->
+            Rel s g s' g' /\ (KProcLoop msgs = KStop -> g' = g /\ dead s' = true)).
+  { intros r g' s' H. split; [exact H | intro E; discriminate E]. }
+  assert (FINB : C [] g s -> wf (finish_block rec)
+            (fun _ g' s' => Rel s g s' g' /\ (KProcLoop msgs = KStop -> g' = g /\ dead s' = true)) g s).
+  { intros H0. eapply wp_conseq; [ apply (f_finish_block s g s g (Rel_refl s g K H0) LF) |]. intros r g' s' H. apply (POST r). exact H. }
+  apply wp_bind, wp_get; cbn beta iota.
+  destruct msgs as [|m0 ms]; [ apply FINB; exact Hc |].
+  destruct (s_shutting s) eqn:SH.
+  { apply FINB. apply C_dead. unfold dead2. rewrite SH. apply orb_true_r. }
+  destruct (s_stopping s) eqn:ST.
+  { apply FINB. apply C_dead, dead2_of. unfold dead. rewrite ST. reflexivity. }
+  destruct (s_startd s) as [[]|] eqn:SD.
+  { apply FINB. apply C_dead, dead2_of. unfold dead, startd_unfired. rewrite SD. apply orb_true_r. }
+  2:{ apply FINB. apply C_dead, dead2_of. unfold dead, startd_unfired. rewrite SD. apply orb_true_r. }
+  (* the consumer is alive: the block goes to the processor *)
+  assert (DS : dead s = false) by (unfold dead, startd_unfired; rewrite ST, SD; reflexivity).
+  assert (DS2 : dead2 s = false) by (unfold dead2; rewrite DS, SH; reflexivity).
+  destruct (loop_ok_alive _ L DS) as [SP MB].
+  destruct (blk_nonempty _ m0 ms (PInv_acn _ _ _ K)) as [tl Hblk].
+  set (n := if c_acn (s_cf s) =? 0 then length (m0 :: ms) else Z.to_nat (c_acn (s_cf s))) in *.
+  rewrite Hblk. set (rest := drop n (m0 :: ms)). set (last := List.last (m0 :: tl) m0).
+  pose proof (Hc DS2) as Eg. unfold queued in Eg. rewrite SP in Eg. change ([] ++ pext s) with (pext s) in Eg.
+  set (g1 := rest ++ pext s).
+  assert (EM : fifo_out g (OCallProc (m0 :: tl)) = Some g1).
+  { unfold fifo_out. rewrite Eg. pose proof (is_prefix_take n (m0 :: ms) (pext s)) as P1.
+    pose proof (drop_take_app n (m0 :: ms) (pext s)) as P2. rewrite Hblk in P1, P2. rewrite P1, P2. reflexivity. }
+  apply wp_bind, wp_emit. exists g1. split; [exact EM|]. cbn beta iota.
+  (* from here on the result is a Rel from the current point with monitor state g1 *)
+  assert (CLOSE : forall st (Q := fun (_ : res unit) (g' : list Z) (s' : state) =>
+                           Rel s g s' g' /\ (KProcLoop (m0 :: ms) = KStop -> g' = g /\ dead s' = true)),
+             mono s st -> forall r g' s', Rel st g1 s' g' -> Q r g' s').
+  { intros st Q M r g' s' (K' & M' & G' & C'). split; [| intro E; discriminate E].
+    split; [exact K' | split; [| split; [| exact C']]].
+    - intro D. apply M', M, D.
+    - intro D. rewrite DS2 in D. discriminate D. }
+  assert (TAILQ : forall r st, JJ st -> dead st || is_some (s_mblock st) = true -> dead st || negb (is_some (s_proc st)) = true ->
+             C rest g1 st -> mono s st ->
+             wf (tail_of rec last rest r)
+                (fun (_ : res unit) (g' : list Z) (s' : state) =>
+                   Rel s g s' g' /\ (KProcLoop (m0 :: ms) = KStop -> g' = g /\ dead s' = true)) g1 st).
+  { intros r st K1 MB1 PN1 C1 M1. eapply wp_conseq; [ apply (f_tail last rest r g1 st K1 MB1 PN1 C1) |].
+    intros r0 g' s' H. apply (CLOSE st M1 r0). exact H. }
+  assert (C0 : forall st, s_proc st = None -> s_mblock st = s_mblock s -> s_foff st = s_foff s -> C rest g1 st).
+  { intros st E1 E2 E3 _. subst g1. unfold queued, pext. rewrite E1, E2, E3. reflexivity. }
+  (* the oracle for this invocation *)
+  assert (POP : forall (Q : res (Z * Z) -> list Z -> state -> Prop),
+            (forall p st, JJ st -> s_proc st = None -> s_mblock st = s_mblock s -> s_foff st = s_foff s -> dead st = dead s ->
+                          dead2 st = dead2 s -> s_startd st = s_startd s -> Q (Ok p) g1 st) -> wf pop_plan Q g1 s).
+  { intros Q HQ. unfold pop_plan. apply wp_bind, wp_get. cbn beta iota. destruct (s_plan s) as [|p pl] eqn:PL.
+    - apply wp_ret. apply HQ; auto.
+    - apply wp_bind, wp_upd. cbn beta iota. apply wp_ret. apply HQ; auto; try (clear - K; psolve). }
+  apply wp_bind, POP. intros [i r] st K0 SP0 MB0 F0 D0 D20 SD0. cbn beta iota. cbn [fst snd].
+  assert (M0 : mono s st) by (intro D; rewrite D20; exact D).
+  assert (MBd : dead st || is_some (s_mblock st) = true) by (rewrite MB0, MB; apply orb_true_r).
+  assert (PNd : dead st || negb (is_some (s_proc st)) = true) by (rewrite SP0; apply orb_true_r).
+  change (if r =? 2
+      then
+       upd (set_proc (Some (last, rest, false)));;;
+       s0 <- get;;
+       (if s_stopping s0 || negb (is_some (s_startd s0))
+        then emit OCancelProc;;; proc_chain last (Some FK_CANCELLED);;; finish_block rec
+        else ret tt)
+      else
+       r0 <- proc_chain last (if r =? 0 then None else Some FK_PROC);;
+       s0 <- get;;
+       (if s_stopping s0 || negb (is_some (s_startd s0))
+        then finish_block rec
+        else match r0 with
+             | Some k => raise k
+             | None => rec (KProcLoop rest)
+             end)) with (tail_of rec last rest r).
+  destruct (i =? 1) eqn:I1; [| destruct (i =? 2) eqn:I2; [| destruct (i =? 3) eqn:I3]].
+  - (* the processor calls consumer.stop() *)
+    apply wp_bind. unfold api_stop. apply wp_bind, wp_try.
+    eapply wp_conseq; [ apply (HrecE KStop); split; [exact K0 | exact I] |].
+    intros r1 g2 s2 [(K2 & M2 & _ & _) HS]. destruct (HS eq_refl) as [-> D2]. cbn beta iota.
+    apply wp_bind, wp_get. cbn beta iota.
+    assert (T2 : wf (tail_of rec last rest r)
+                (fun (_ : res unit) (g' : list Z) (s' : state) =>
+                   Rel s g s' g' /\ (KProcLoop (m0 :: ms) = KStop -> g' = g /\ dead s' = true)) g1 s2).
+    { apply TAILQ; auto.
+      - rewrite D2. reflexivity.
+      - rewrite D2. reflexivity.
+      - apply C_dead, dead2_of. exact D2.
+      - intro D. apply M2, M0, D. }
+    destruct r1; apply wp_emit; eexists; (split; [reflexivity|]); cbn beta iota; exact T2.
+  - (* the processor calls consumer.commit() *)
+    apply wp_bind. unfold api_commit. apply wp_bind, wp_get. cbn beta iota. apply wp_bind, wp_upd. cbn beta iota.
+    apply wp_bind, wp_try.
+    assert (K1 : JJ (set_ncommit (s_ncommit st + 1) st)) by (clear - K0; psolve).
+    eapply wp_call; [ apply (e_commit (WUser (s_ncommit st + 1)) g1 _ K1) |].
+    intros r1 g2 s2 (-> & F2 & K2 & (P1 & P2 & _) & M2 & MD2). cbn beta iota. psimpl.
+    assert (T2 : wf (tail_of rec last rest r)
+                (fun (_ : res unit) (g' : list Z) (s' : state) =>
+                   Rel s g s' g' /\ (KProcLoop (m0 :: ms) = KStop -> g' = g /\ dead s' = true)) g1 s2).
+    { apply TAILQ; auto.
+      - rewrite P2, MB0, MB. apply orb_true_r.
+      - rewrite P1, SP0. apply orb_true_r.
+      - apply C0; congruence.
+      - intro D. apply M2. unfold dead2, dead, startd_unfired in *. psimpl. apply M0. exact D. }
+    destruct r1 as [[cr|]|k]; cbn beta iota.
+    + apply wp_bind, wp_emit. eexists. split; [reflexivity|]. cbn beta iota.
+      apply wp_emit. eexists. split; [reflexivity|]. cbn beta iota. exact T2.
+    + apply wp_emit. eexists. split; [reflexivity|]. cbn beta iota. exact T2.
+    + apply wp_emit. eexists. split; [reflexivity|]. cbn beta iota. exact T2.
+  - (* the processor calls consumer.shutdown(): from its flag on the consumer counts as dead here *)
+    apply wp_bind. unfold api_shutdown. apply wp_bind, wp_get. cbn beta iota.
+    destruct (negb (is_some (s_startd st)) || s_shutd st) eqn:SH0.
+    + apply wp_bind, wp_emit. eexists. split; [reflexivity|]. cbn beta iota.
+      apply wp_emit. eexists. split; [reflexivity|]. cbn beta iota. apply TAILQ; auto.
+    + apply wp_bind, wp_upd. cbn beta iota. rewrite SP0. apply wp_bind, wp_try.
+      match goal with |- wp _ _ _ _ ?x => set (s2 := x) end.
+      assert (SH2 : s_shutting s2 = true) by (subst s2; psimpl; destruct (s_maxatt st =? 0); reflexivity).
+      assert (K2 : JJ s2) by (subst s2; clear - K0; psimpl; destruct (s_maxatt st =? 0); psolve).
+      assert (K2w : PInv (false, false) (Some (last, r)) s2).
+      { subst s2. clear - K0 SP0 MB0 MB. psimpl. destruct (s_maxatt st =? 0); psolve. }
+      assert (D22 : dead2 s2 = true) by (unfold dead2; rewrite SH2; apply orb_true_r).
+      assert (M2 : mono s s2) by (intros _; exact D22).
+      clearbody s2.
+      eapply wp_call.
+      { eapply (wp_strengthen _ _ _ (fun _ s3 => PInv (false, false) (Some (last, r)) s3)).
+        - intros r3 s3 o3 E3 F3.
+          destruct (HrecW KCommitAndStop (false, false) (Some (last, r)) (pw_abs (Some (last, r)) s2) s2
+                      (conj eq_refl K2w) r3 s3 o3 E3 F3) as (gp & _ & _ & [H | (E & _)]); [exact H | discriminate E].
+        - apply (HrecE KCommitAndStop g1 s2). split; [exact K2 | apply C_dead; exact D22]. }
+      intros r3 g3 s3 [[(K3 & M3 & G3 & _) _] K3w]. rewrite (G3 D22). cbn beta iota.
+      apply wp_bind, wp_get. cbn beta iota. apply wp_bind, wp_upd. cbn beta iota.
+      set (s4 := set_pend (s_pend st) (set_inapi (s_inapi st) s3)).
+      assert (NPs : forallb pw_neutral (s_pend st) = true)
+        by (clear - K0; unfold PInv in K0; repeat (apply andb_prop in K0; destruct K0 as [K0 ?]); assumption).
+      assert (NP3 : forallb pw_neutral (s_pend s3) = true)
+        by (clear - K3; unfold PInv in K3; repeat (apply andb_prop in K3; destruct K3 as [K3 ?]); assumption).
+      assert (K4w : PInv (false, false) (Some (last, r)) s4) by (subst s4; clear - NPs K3w; psolve).
+      assert (D24 : dead2 s4 = true) by (apply (M3 D22)).
+      assert (T4 : wf (tail_of rec last rest r)
+                (fun (_ : res unit) (g' : list Z) (s' : state) =>
+                   Rel s g s' g' /\ (KProcLoop (m0 :: ms) = KStop -> g' = g /\ dead s' = true)) g1 s4).
+      { apply TAILQ.
+        - clear - K4w. psolve.
+        - clear - K4w. unfold PInv in K4w. cbn [is_some implb] in K4w. bool_hyps. assumption.
+        - clear - K4w. unfold PInv in K4w. cbn [is_some implb] in K4w. bool_hyps.
+          match goal with H : is_some (s_proc s4) = false |- _ => rewrite H end. apply orb_true_r.
+        - apply C_dead. exact D24.
+        - intros _. exact D24. }
+      clearbody s4.
+      assert (NC_pend : forall l gg, forallb pw_neutral l = true -> gouts fifo_out gg l = Some gg).
+      { induction l as [|x l IH]; intros gg H; cbn [forallb gouts] in *; [reflexivity|]. apply andb_prop in H. destruct H as [H1 H2].
+        destruct x; try discriminate H1; cbn [fifo_out]; auto. }
+      destruct r3.
+      * apply wp_bind. apply wp_emits. exists g1. split; [apply NC_pend; exact NP3|]. cbn beta iota.
+        apply wp_emit. eexists. split; [reflexivity|]. cbn beta iota. exact T4.
+      * apply wp_emit. eexists. split; [reflexivity|]. cbn beta iota. exact T4.
+  - (* it returns / raises / returns a Deferred without calling back *)
+    apply wp_bind, wp_ret. cbn beta iota. apply TAILQ; auto.
+Qed.
+
+Lemma e_stop_req g s : JJ s -> wf stop_req (EL g s) g s.
+Proof.
+  intro K. eapply wp_conseq.
+  - eapply (wp_strengthen _ _ _ (fun r s' => PInv (dead s, false) None s' /\ Fp s s')); [| apply n_stop_req].
+    intros r s' o E F. destruct (p_stop_req _ None s (JJ_mode _ K) r s' o E F) as (gp & _ & (((_ & HP) & FP & _) & _)). split; auto.
+  - intros r g' s' [[-> [HF HS]] [HP FP]]. unfold EL. split; [reflexivity|]. split; [exact HF|].
+    split; [eapply mode_JJ; eauto|]. split; [exact FP | split; [eapply mode_mono; eauto | eapply mode_monod; eauto]].
+Qed.
+
+Ltac r_calls3 := idtac; first [ r_calls2 | lazymatch goal with
+  | |- wp _ (stop_creq _) _ ?g ?st =>
+    cur_rel st; match goal with R : Rel ?s0 ?g0 st g |- _ =>
+      eapply wp_call; [ apply (f_stop_creq s0 g0 st g R)
+                      | let r := fresh "r" in let H := fresh "R" in intros r ? ? H; clear R; destruct r; cbn beta iota ] end
+  end ].
+Lemma f_body_KStop g s : PreE KStop g s -> wf (body rec KStop) (PostE KStop g s) g s.
+Proof.
+  intros [K _]. unfold PostE.
+  (* the state facts come from the PW simulation of the whole of stop() *)
+  assert (PWF : forall r s' o, body rec KStop s = (r, s', o) -> fuel_ok o = true -> JJ s' /\ dead s' = true).
+  { intros r s' o E F. destruct (p_body_KStop rec HrecW _ None s (JJ_mode _ K) r s' o E F) as (gp & _ & _ & H).
+    destruct H as [H | (_ & SD & H)].
+    - split; [eapply mode_JJ; eauto | apply (PInv_dead _ _ _ _ H eq_refl)].
+    - split; [eapply mode_JJ; eauto|]. assert (D : dead s = true) by (unfold dead, startd_unfired; rewrite SD; apply orb_true_r).
+      rewrite D in H. apply (PInv_dead _ _ _ _ H eq_refl). }
+  eapply wp_conseq with (Q := fun _ g' s' => g' = g /\ (JJ s' /\ dead s' = true)).
+  2:{ intros r g' s' [-> [K' D']]. split; [| intros _; split; auto].
+      split; [exact K' | split; [| split]]; [ intros _; apply dead2_of; exact D' | auto | apply C_dead, dead2_of; exact D' ]. }
+  eapply (wp_strengthen _ _ _ (fun _ s' => JJ s' /\ dead s' = true)); [exact PWF|].
+  (* nothing is handed to the processor inside stop() *)
+  cbn [body]. apply wp_bind, wp_get. cbn beta iota. destruct (s_startd s) as [b|] eqn:SD; [| apply wp_raise; reflexivity].
+  apply wp_bind, wp_upd. cbn beta iota.
+  set (s1 := set_stopping true s).
+  assert (K1 : JJ s1) by (subst s1; clear - K; psolve).
+  assert (D1 : dead s1 = true) by reflexivity.
+  assert (R : Rel s1 g s1 g) by (apply Rel_refl; [exact K1 | apply C_dead, dead2_of; exact D1]).
+  assert (FINAL : forall (r : res unit) sN gN, Rel s1 g sN gN -> gN = g).
+  { intros r sN gN (_ & _ & G & _). apply G. apply dead2_of. exact D1. }
+  clearbody s1.
+  apply wp_bind. eapply wp_call; [ apply (e_stop_req g s1 K1) |].
+  intros r2 g2 s2 HEL. pose proof (Rel_leaf _ _ _ _ _ _ _ _ R HEL) as R2.
+  destruct HEL as (-> & _ & K2 & (_ & _ & _ & ST2) & _ & MD2). clear R.
+  assert (D2 : dead s2 = true) by (apply MD2; exact D1).
+  destruct r2; cbn beta iota; [| apply (FINAL (Exc k) _ _ R2)].
+  (* the parked reply is dropped *)
+  apply wp_bind. unfold stop_mblock. apply wp_bind, wp_get. cbn beta iota.
+  assert (R3 : forall mb, Rel s1 g (set_mblock mb s2) g).
+  { intro mb. destruct R2 as (K2' & M2 & G2 & _). split; [clear - K2 D2; psolve | split; [| split]].
+    - intro D. exact (M2 D).
+    - exact G2.
+    - apply C_dead, dead2_of. exact D2. }
+  assert (REST : forall s3, Rel s1 g s3 g ->
+            wf (stop_proc rec;;; stop_rcall;;; rec KStopCds;;; stop_creq rec;;; stop_ccall;;; stop_looper;;; stop_susp;;;
+                upd (set_stopping false);;; stop_startd) (fun _ g' _ => g' = g) g s3).
+  { intros s3 R. unfold stop_proc, stop_startd. r_walk r_calls3.
+    all: match goal with R : Relq [] _ _ _ ?gN |- ?gN = _ => apply (FINAL (Ok tt) _ _ R) end. }
+  destruct (s_mblock s2); [ apply wp_upd | apply wp_ret ]; cbn beta iota; apply REST.
+  - apply R3.
+  - exact R2.
+Qed.
+
+Lemma f_body k g s : PreE k g s -> wf (body rec k) (PostE k g s) g s.
+Proof.
+  intro Pre. destruct k.
+  - apply f_body_KStop; auto.
+  - apply f_body_KStopCds; auto.
+  - apply f_body_KFireProc; auto.
+  - apply f_body_KProcLoop; auto.
+  - apply f_body_KFetchResp; auto.
+  - apply f_body_KCommitAndStop; auto.
+  - apply f_body_KShutFinish; auto.
+  - apply f_body_KFireCd; auto.
+  - apply f_body_KDeliver; auto.
+Qed.
+End Rec.
+
+Lemma f_run fuel : forall k g s, PreE k g s -> wf (run fuel k) (PostE k g s) g s.
+Proof.
+  induction fuel as [|f IH]; intros k g s Pre.
+  - intros r s' o E F. cbn in E. unfold bind, emit, raise in E. inversion E; subst. discriminate F.
+  - cbn [run]. apply f_body; auto. apply p_run.
 Qed.
